@@ -11,9 +11,11 @@ printable characters, "\n" and (rarely) "\t".
 """
 import string
 
+# Hyphens only where textwrap's default word splitter finds no break point (a "-" is never
+# directly followed by a letter, digit or "_"): the modelled domain, see coq/C29/Render.v.
 WORDS = ["x", "is", "the", "variable", "expected", "qubit", "`int`", "got", "(a,", "b)", "cannot", "be", "used",
-         "here:", "type", "mismatch", "--", "a-b", "well-known", "non-linear", "f(x)", "{k}", "}", "{", "100%",
-         "https://doi.org/10.1136%2Fbmj.321.7276.1569", "borrowed", "argument", "^^^", "|", "-", "Note:"]
+         "here:", "type", "mismatch", "--", "->", "`-`", "pre-", "f(x)", "{k}", "}", "{", "100%",
+         "https://doi.org/10.1136%2Fbmj.321.7276.1569", "borrowed", "argument", "^^^", "|", "-", "Note:", "x--"]
 TOKENS = ["x", "=", "foo(a,", "b)", "return", "qubit()", "y", "+", "1", "if", "c:", "def", "f(q:", "qubit)", "->",
           "None:", "#", "comment", "'s t r'", "|", "^", "-", "..."]
 LEVELS = ["Fatal", "Error", "Warning", "Note", "Help"]
@@ -21,20 +23,17 @@ BASE_INDENTS = [0, 0, 4, 8, 12, 13, 14, 16, 17, 20, 24]
 
 
 def long_word(r):
-    n = r.choice([59, 60, 61, 70, 79, 80, 81, 95, 130])
-    kind = r.randrange(3)
-    if kind == 0:
-        return "".join(r.choice(string.ascii_lowercase) for _ in range(n))
-    if kind == 1:  # hyphenated compound
-        out = []
-        while sum(len(x) + 1 for x in out) < n:
-            out.append("".join(r.choice(string.ascii_lowercase) for _ in range(r.randint(1, 9))))
-        return "-".join(out)[:n].rstrip("-") or "w"
+    """A word longer than (or close to) the wrapping width, without hyphens."""
+    n = r.choice([59, 60, 61, 70, 79, 80, 81, 95, 130, 170])
+    if r.random() < 0.5:
+        return "".join(r.choice(string.ascii_lowercase + "_./") for _ in range(n))
     return "`" + "a" * n + "`"
 
 
-def text(r, allow_none=True, kind=None):
-    """A label / message text."""
+def text(r, allow_none=True, kind=None, long_words=False):
+    """A label / message text.  long_words=False: every word and every whitespace run is
+    shorter than the label width (the domain in which C29's wrapping clause holds);
+    long_words=True: the known-defect domain (textwrap cuts words longer than the width)."""
     k = kind if kind is not None else r.randrange(12)
     if k == 0 and allow_none:
         return None
@@ -44,16 +43,16 @@ def text(r, allow_none=True, kind=None):
     parts = []
     for i in range(nwords):
         x = r.random()
-        if x < 0.06:
+        if x < 0.10 and long_words:
             parts.append(long_word(r))
-        elif x < 0.12:
-            parts.append("-".join(r.choice(WORDS[:12]) for _ in range(r.randint(2, 9))))
+        elif x < 0.14:
+            parts.append("".join(r.choice(WORDS[:12]) for _ in range(r.randint(2, 9)))[:50])
         else:
             parts.append(r.choice(WORDS))
         if i + 1 < nwords:
             y = r.random()
             parts.append(" " if y < 0.86 else "  " if y < 0.91 else "\n" if y < 0.95 else "\n\n" if y < 0.97
-                         else "\t" if y < 0.985 else " " * r.randint(3, 70))
+                         else "\t" if y < 0.985 else " " * r.randint(3, 70 if long_words else 45))
     t = "".join(parts)
     z = r.random()
     if z < 0.05:
@@ -151,26 +150,29 @@ def bad_span(r, src):
 def case(r):
     src = source(r)
     malformed = r.random() < 0.05
+    lw = r.random() < 0.12
+    def text_(r_, allow_none=True, kind=None):
+        return text(r_, allow_none, kind, long_words=lw)
     c = {"src": src, "level": r.choice(["Error"] * 5 + LEVELS), "title": text(r, False, kind=r.choice([1, 2, 3])) or "T",
-         "via_field": r.random() < 0.3, "children": [], "malformed": malformed}
+         "via_field": r.random() < 0.3, "children": [], "malformed": malformed, "defect_domain": lw}
     c["title"] = " ".join(c["title"].split()) or "Title"      # titles are single-line
     if r.random() < 0.08:
-        c.update(span=None, label=None, message=text(r))
+        c.update(span=None, label=None, message=text_(r))
         if r.random() < 0.5:                                   # message-only children
             for _ in range(r.randint(1, 2)):
                 c["children"].append({"level": r.choice(["Note", "Help"]), "span": None, "label": None,
-                                      "message": text(r)})
+                                      "message": text_(r)})
         return c
     c["span"] = bad_span(r, src) if malformed and r.random() < 0.5 else span(r, src)
-    c["label"] = text(r)
-    c["message"] = text(r) if r.random() < 0.5 else None
+    c["label"] = text_(r)
+    c["message"] = text_(r) if r.random() < 0.5 else None
     for _ in range(r.choice([0, 0, 0, 1, 1, 2, 3])):
         if r.random() < 0.75:
             sp = bad_span(r, src) if malformed and r.random() < 0.5 else span(r, src)
-            ch = {"level": r.choice(["Note", "Help", "Note", "Warning"]), "span": sp, "label": text(r),
-                  "message": text(r) if r.random() < 0.25 else None}
+            ch = {"level": r.choice(["Note", "Help", "Note", "Warning"]), "span": sp, "label": text_(r),
+                  "message": text_(r) if r.random() < 0.25 else None}
         else:
-            ch = {"level": r.choice(["Note", "Help"]), "span": None, "label": None, "message": text(r)}
+            ch = {"level": r.choice(["Note", "Help"]), "span": None, "label": None, "message": text_(r)}
         c["children"].append(ch)
     return c
 
